@@ -291,6 +291,22 @@ func famEval() {
 		trees = append(trees, t)
 	}
 
+	if prop == "C02" {
+		// same-kind and/or groups that ReduceNesting merges to just below / just above the operand limit,
+		// below an operator that is not at the root
+		fan := func(name, v string, n int) *Tree {
+			t := op(name)
+			for i := 0; i < n; i++ {
+				t.Kids = append(t.Kids, vr(v))
+			}
+			return t
+		}
+		for _, ab := range [][2]int{{63, 64}, {64, 64}, {100, 40}} {
+			trees = append(trees, op("not", op("and", fan("and", "x", ab[0]), fan("and", "y", ab[1]))))
+			trees = append(trees, op("if", op("or", fan("or", "x", ab[0]), fan("||", "y", ab[1])), cst(int64(1)), cst(int64(2))))
+			trees = append(trees, op("eq", op("and", fan("&&", "z", ab[0]), fan("and", "x", ab[1]), vr("y")), vr("y")))
+		}
+	}
 	seen := map[string]bool{}
 	id := *fIDBase - 1
 	for _, t := range trees {
